@@ -462,6 +462,29 @@ fn overlap_sources() -> Vec<(String, String)> {
     out
 }
 
+/// Boundary of the key space: a multi-slot field whose explicit key makes `key + slots - 1` exceed
+/// 2^256 - 1 (the VM refuses such ranges with TooManySlots, so no emitted slots can make the read
+/// work). Acceptable: a compile error, or a build whose read returns the initializer. (The fitting
+/// neighbour — last slot exactly 0xff…ff — is part of the main space: odd-numbered contracts.)
+fn wrap_sources() -> Vec<(String, String, Expect)> {
+    let tys = [Ty::Tuple(vec![Ty::U64, Ty::U256]), Ty::Struct(vec![Ty::B256, Ty::B256])];
+    let mut out = vec![];
+    for (i, t) in tys.iter().enumerate() {
+        let v = t.boundary(false).remove(4);
+        let mut decls = BTreeMap::new();
+        t.decls(&mut decls);
+        let src = format!(
+            "contract;\n{}\nstorage {{\n    x in 0x{}: {} = {},\n}}\nabi A {{ #[storage(read)] fn r(); }}\nimpl A for Contract {{ #[storage(read)] fn r() {{ log(storage.x.read()); }} }}\n#[test]\nfn t0() {{ abi(A, CONTRACT_ID).r(); }}\n",
+            decls.values().cloned().collect::<Vec<_>>().join("\n"),
+            "ff".repeat(32),
+            t.sway(),
+            v.sway(t)
+        );
+        out.push((format!("c12_wrap{i}"), src, Expect::ok(vec![v.abi(t)])));
+    }
+    out
+}
+
 const FIELDS_PER_CONTRACT: usize = 90;
 
 fn run(a: &vhcore::Args) -> i32 {
@@ -489,7 +512,7 @@ fn run(a: &vhcore::Args) -> i32 {
         .enumerate()
         .map(|(i, s)| request(i as u64, &format!("c12_p{i}"), s, vec![spec("F", release, true, true, false)]))
         .collect();
-    let mut pool = Pool::new(a.jobs, vhcore::work_dir("C12"));
+    let mut pool = Pool::new(a.jobs, vhcore::work_dir("C12/pool"));
     pool.recycle_after = 30;
 
     // self-check: first, middle and last contract in both modes (folded into the main run)
@@ -507,6 +530,10 @@ fn run(a: &vhcore::Args) -> i32 {
     for (i, (n, s)) in ov.iter().enumerate() {
         reqs.push(request(10_000 + i as u64, n, s, vec![spec("A", release, false, true, true)]));
     }
+    let wraps = wrap_sources();
+    for (i, (n, s, _)) in wraps.iter().enumerate() {
+        reqs.push(request(20_000 + i as u64, n, s, vec![spec("A", release, true, true, true)]));
+    }
 
     let t0 = std::time::Instant::now();
     let mut results = pool.run(&reqs);
@@ -515,7 +542,8 @@ fn run(a: &vhcore::Args) -> i32 {
         Ok(n) => rep.set("modeF_equals_modeA_packages", n as u64),
         Err(e) => vhcore::machinery_failure(&e),
     }
-    let ov_results = results.split_off(n_main);
+    let mut ov_results = results.split_off(n_main);
+    let wrap_results = ov_results.split_off(ov.len());
 
     let mut evaluations = 0u64;
     let mut fields_total = 0u64;
@@ -663,6 +691,42 @@ fn run(a: &vhcore::Args) -> i32 {
         }
     }
 
+    // key-space boundary probes (each is already a single-field package built alone in Mode A)
+    let mut wraps_rejected = 0u64;
+    let mut wraps_ok = 0u64;
+    for ((name, src, expect), res) in wraps.iter().zip(wrap_results) {
+        evaluations += 1;
+        match res {
+            Ok(r) => {
+                let b = &r.builds[0];
+                if b.panic.is_some() {
+                    rep.violation(
+                        &format!("{}|multi-slot-field-whose-explicit-key-range-wraps-2^256", build_failure_key(b)),
+                        &format!("{name}: a 2-slot storage field declared `in 0xff…ff` crashes the compiler: {}", build_failure_text(b)),
+                        json!({"kind": "build", "name": name, "release": release, "src": src}),
+                    );
+                } else if !b.ok {
+                    wraps_rejected += 1;
+                } else {
+                    let obs = tests_map(b).get("t0").map(Expect::of_outcome);
+                    if obs.as_ref() == Some(expect) {
+                        wraps_ok += 1;
+                    } else {
+                        rep.violation(
+                            "multi-slot-field-whose-explicit-key-range-wraps-2^256|accepted-but-read-differs",
+                            &format!("{name}: accepted without diagnostic, read expected {expect:?}, observed {obs:?} {}", b.run_error),
+                            replay_tests_json(name, src, release, "t0", expect, &json!(obs)),
+                        );
+                    }
+                }
+            }
+            Err(e) => vhcore::machinery_failure(&format!("wrap probe {name}: {e}")),
+        }
+    }
+    rep.set("key_space_wrap_probes", wraps.len() as u64);
+    rep.set("key_space_wrap_probes_rejected_with_diagnostic", wraps_rejected);
+    rep.set("key_space_wrap_probes_read_ok", wraps_ok);
+
     if classes.is_empty() && distinct_reads.len() < 2 {
         vhcore::machinery_failure("fewer than 2 distinct read results observed");
     }
@@ -717,9 +781,9 @@ fn replay(a: &vhcore::Args) -> i32 {
     let src = r["src"].as_str().unwrap_or("");
     let release = r["release"].as_bool().unwrap_or(false);
     match r["kind"].as_str() {
-        Some("tests") => replay_tests("C12replay", r),
+        Some("tests") => replay_tests("C12/replay", r),
         Some("slots") => {
-            let b = build_in_process("C12replay", name, src, spec("replay", release, true, true, true));
+            let b = build_in_process("C12/replay", name, src, spec("replay", release, true, true, true));
             if !b.ok {
                 println!("replay: build fails: {}", build_failure_text(&b));
                 return 1;
@@ -744,8 +808,18 @@ fn replay(a: &vhcore::Args) -> i32 {
                 1
             }
         }
+        Some("build") => {
+            let b = build_in_process("C12/replay", name, src, spec("replay", release, true, true, true));
+            if b.panic.is_some() {
+                println!("replay: still crashes: {}", build_failure_text(&b));
+                1
+            } else {
+                println!("replay: no compiler crash any more (build ok={} {})", b.ok, if b.ok { String::new() } else { build_failure_text(&b) });
+                0
+            }
+        }
         Some("warn") => {
-            let b = build_in_process("C12replay", name, src, spec("replay", release, false, true, true));
+            let b = build_in_process("C12/replay", name, src, spec("replay", release, false, true, true));
             let want = r["expect_warning"].as_str().unwrap_or("");
             let warned = b.warnings.iter().any(|w| w.message.contains(want));
             println!("build ok={} warnings={:?}", b.ok, b.warnings.iter().map(|w| &w.message).collect::<Vec<_>>());
@@ -768,7 +842,7 @@ fn main() {
     let code = match a.cmd.as_str() {
         "check" => run(&a),
         "replay" => replay(&a),
-        "try" => try_file("C12try", &a.rest[0], a.rest.get(1).map(|s| s == "release").unwrap_or(false)),
+        "try" => try_file("C12/try", &a.rest[0], a.rest.get(1).map(|s| s == "release").unwrap_or(false)),
         "gen" => {
             // gen <quick|thorough> <contract index>
             let (all, _) = cases(a.rest[0] == "thorough");
